@@ -21,7 +21,7 @@ from panelmat import fr
 
 TOL, TOL_NL, TOL_PLACE, TOL_PSD = 38, 34, 40, 30
 OWN = ["KF_C13_AssemblyWithoutConnectionsRaises", "KF_C13_Blade2DWithoutFlangeRaises", "KF_C13_Blade1DMassCouplingDoubled",
-       "KF_C13_TStiffBaseStripInBayCoordinates"]
+       "KF_C13_TStiffBaseStripInBayCoordinates", "KF_C13_Blade1DTwistTermsNotLaminate"]
 INHERITED = {"KF_C04_OffsetCouplingSign": "C04", "KF_C20_Assembly_calc_fint_sum": "C20",
              "KF_C20_Panel_calc_kM_model": "C20"}
 INVS = ["RangesPartition", "RangesOrdered", "SizeIsSum", "PlacementsInside", "PlaceAgrees", "GlobalSymmetric",
@@ -335,26 +335,70 @@ def observe_place(bd, q):
     return dict(q=q, size=size, comps=[enc_mat(A) for A in comps], obs=enc_mat(K)), psd, beams
 
 
+def stand_alone(b, s, sd, n0, mat, loads=None, own=None):
+    """the stiffener's own matrix at its own size: as the bay calls it (finalize=False: upper triangle), then mirrored by
+    the package's own finalisation"""
+    from compmech.sparse import finalize_symmetric_matrix
+    if loads is not None:
+        if sd["kind"] == "b1d":
+            s.Fx = loads["Nf"][0]
+        elif s.flange is not None:
+            s.flange.Nxx, s.flange.Nyy, s.flange.Nxy = loads["Nf"]
+        if sd["kind"] == "t2d":
+            s.base.Nxx, s.base.Nyy, s.base.Nxy = loads["Nb"]
+    own = own_size(sd) if own is None else own
+    kw = dict(size=n0 + own, row0=n0 if own else 0, col0=n0 if own else 0, silent=True, finalize=False)
+    if mat != "k0":
+        quiet(s.calc_k0, **kw)
+    quiet(getattr(s, "calc_" + mat), **kw)
+    M = getattr(s, mat)
+    return dense(finalize_symmetric_matrix(M)) if hasattr(M, "toarray") else np.zeros((n0 + own, n0 + own))
+
+
 def observe_stiff(bd, r):
-    """stand-alone matrix (own size, finalised) of 2-D stiffener r.k with the part loads of r, on a fresh bay after the
-    bay's calc_k0 (documented order)"""
+    """stand-alone matrix (own size) of stiffener r.k with the part loads of r, on a fresh bay after the bay's calc_k0
+    (documented order); for a 1-D blade the axial load Fx is r.Nf[0]"""
     b, stiffs = build_bay(bd)
     quiet(b.calc_k0, silent=True)
     s, sd = stiffs[r["k"] - 1], bd["stiffs"][r["k"] - 1]
-    if s.flange is not None:
-        s.flange.Nxx, s.flange.Nyy, s.flange.Nxy = (flt(x) for x in r["Nf"])
-    if sd["kind"] == "t2d":
-        s.base.Nxx, s.base.Nyy, s.base.Nxy = (flt(x) for x in r["Nb"])
-    n0, own = n0_of(bd), own_size(sd)
-    # as the bay calls it (finalize=False: upper triangle), then mirrored by the package's own finalisation
-    from compmech.sparse import finalize_symmetric_matrix
-    kw = dict(size=n0 + own, row0=n0 if own else 0, col0=n0 if own else 0, silent=True, finalize=False)
-    if r["mat"] != "k0":
-        quiet(s.calc_k0, **kw)
-    quiet(getattr(s, "calc_" + r["mat"]), **kw)
-    M = getattr(s, r["mat"])
-    A = dense(finalize_symmetric_matrix(M)) if hasattr(M, "toarray") else np.zeros((n0 + own, n0 + own))
-    return dict(req=r, obs=enc_mat(A))
+    loads = dict(Nf=[flt(x) for x in r["Nf"]], Nb=[flt(x) for x in r["Nb"]])
+    try:
+        return dict(req=r, obs=enc_mat(stand_alone(b, s, sd, n0_of(bd), r["mat"], loads)))
+    except KeyError as ex:
+        return dict(req=r, raised="KeyError", msg=str(ex)[:120])
+
+
+def observe_parts(bd, k, mat):
+    """the relational law of optional parts on the code's own matrices: stiffener k with padup AND flange against a twin
+    with the padup only plus a twin with the flange only.  The twins are built so that the law is exact for the package's
+    own composition: the flange-only twin of a 1-D blade stands on a skin thickened by 2*hb (its centroid distance counts
+    the padup thickness), the flange-only twin of a 2-D blade on a skin that IS the padup laminate at the padup's offset
+    (its connection constants are derived from the panel it stands on).  -> place-like event body or None"""
+    sd = bd["stiffs"][k]
+    if not (sd["base"] and sd["flange"]) or sd["kind"] == "t2d":
+        return None
+    if sd["kind"] == "b1d" and mat == "kM":
+        return None                      # refused with a padup (C20's listed finding)
+    n0 = n0_of(bd)
+    loads = dict(Nf=[-2.5, 0.75, 0.5], Nb=[0.0, 0.0, 0.0])
+    h = sum(flt(p["t"]) for p in bd["skin"]["stack"])
+    hb = sum(flt(p["t"]) for p in sd["blam"]["stack"])
+
+    def one(skin, sdx):
+        b, st = build_bay(dict(kind="bay", skin=skin, cuts=bd["cuts"], stiffs=[sdx]))
+        quiet(b.calc_k0, silent=True)
+        return stand_alone(b, st[0], sdx, n0, mat, loads, own=own_size(sd))
+
+    both = one(bd["skin"], sd)
+    base_only = one(bd["skin"], dict(sd, flange=False))
+    if sd["kind"] == "b1d":
+        f = Fraction(h + 2 * hb) / Fraction(h)
+        skin2 = dict(bd["skin"], stack=[dict(p, t=rat(fr(p["t"]) * f)) for p in bd["skin"]["stack"]])
+    else:
+        skin2 = dict(bd["skin"], stack=sd["blam"]["stack"], off=rat(-(Fraction(h) / 2 + Fraction(hb) / 2)))
+    flange_only = one(skin2, dict(sd, base=False))
+    n = both.shape[0]
+    return dict(q=mat, k=k + 1, size=n, comps=[enc_mat(base_only), enc_mat(flange_only)], obs=enc_mat(both))
 
 
 def observe_bay_fext(bd, r):
@@ -425,7 +469,7 @@ def random_stiff_bay(rng):
         kind = rng.choice(["b1d", "b2d", "b2d", "t2d", "t2d"])
         base, flange = True, True
         if kind == "b1d":
-            base = False                 # a padup makes calc_kM raise (C20's finding); exercised on the lattice
+            base, flange = rng.choice([(False, True), (False, True), (True, True), (True, False)])
         elif kind == "b2d":
             base, flange = rng.choice([(True, True), (False, True), (False, True), (True, False)])
         ys = rng.choice(bd["cuts"])
@@ -445,8 +489,6 @@ def stiff_reqs(rng, bd, nmat):
     """requests for the derived stand-alone matrices of the 2-D stiffeners of a bay, with random part loads"""
     out = []
     for i, sd in enumerate(bd["stiffs"]):
-        if sd["kind"] == "b1d":
-            continue
         for mat in rng.sample(["k0", "kG0", "kM"], nmat):
             out.append(dict(q="stiff", k=i + 1, mat=mat, Nf=[rat(Fraction(rng.randint(-12, 12), 4)) for _ in range(3)],
                             Nb=[rat(Fraction(rng.randint(-12, 12), 4)) for _ in range(3)]))
@@ -487,7 +529,7 @@ def record(events, meta, d, r, only=None):
     elif r["q"] == "stiff":
         sd = d["stiffs"][r["k"] - 1]
         emit("bay", observe_stiff(d, r), "%s.calc_%s (derived stand-alone matrix of stiffener %d)"
-             % ("BladeStiff2D" if sd["kind"] == "b2d" else "TStiff2D", r["mat"], r["k"]))
+             % (dict(b1d="BladeStiff1D", b2d="BladeStiff2D", t2d="TStiff2D")[sd["kind"]], r["mat"], r["k"]))
     elif not d["stiffs"]:
         emit("bay", observe_skin_bay(d, r), "StiffPanelBay (skin tiles)")
     elif r["q"] == "size":
@@ -500,6 +542,11 @@ def record(events, meta, d, r, only=None):
             emit("place", body, "StiffPanelBay.calc_%s vs placed components" % q)
             for bm in beams:
                 emit("bay", bm, "BladeStiff1D.calc_kM (flange as a beam)")
+            for k in range(len(d["stiffs"])):
+                pb = observe_parts(d, k, q)
+                if pb is not None:
+                    emit("parts", pb, "stiffener %d (%s) with padup and flange = padup-only twin + flange-only twin, calc_%s"
+                         % (k + 1, d["stiffs"][k]["kind"], q))
             for o in psd:
                 e = dict(ev="psd", id=len(events), sym=o["sym"], lmin=o["lmin"], norm=o["norm"], kind=o["kind"], q=o["q"])
                 meta[e["id"]] = (d, dict(q="place", psd=o["q"], stiffener=o["stiff"], kind=o["kind"]),
@@ -558,7 +605,7 @@ def replay(path, build):
     d, r = rp["d"], rp["req"]
     events, meta = [], {}
     try:
-        if rp.get("ev") == "place" or r.get("q") == "place":
+        if rp.get("ev") in ("place", "parts") or r.get("q") == "place":
             record(events, meta, d, dict(q="place"), only=r.get("psd", r.get("q")) if r.get("q") != "place" or "psd" in r else None)
         else:
             if r.get("q") == "fint_part":
@@ -687,8 +734,11 @@ def phase(rep, tier, seed, only=None, tag="c13"):
         "BFycte connection) and TStiff2D (base and flange panels, skin-base face-to-face connection over the base strip with "
         "mapped-argument integrals, base-flange BFycte connection, penalty constants) are derived in Assembly.tla from PanelOps / "
         "ConnectionOps / Bardell and the observed stand-alone matrices are judged entry by entry at 2^-%d of the term-magnitude "
-        "scale; of BladeStiff1D only the flange mass is derived (its beam stiffness / geometric stiffness with the equivalent "
-        "moduli E1, F1, S1, Jxx stay on the placed-code-matrices route)" % TOL,
+        "scale; BladeStiff1D likewise: padup strip + flange as a laminated strip on the line y = ys (stiffness from the "
+        "reduced A11, B16, D66 of the flange laminate, geometric stiffness of the axial load Fx, beam mass)" % TOL,
+        "optional parts: for every blade stiffener with padup and flange the code's own matrix equals padup-only twin + flange-only "
+        "twin (twins built so that the law is exact for the package's composition: thicker skin under the 1-D flange-only twin, "
+        "padup laminate as skin under the 2-D one), within 2^-%d of the summed magnitudes" % TOL_PLACE,
         "findings owned by other properties (%s) are accepted here only while known_findings.json lists them as open"
         % ", ".join(sorted(INHERITED)),
         "assemblies use the 3-dof CLT models",
